@@ -60,12 +60,19 @@ def stamp(instant_ns, off_min, notation, frac_digits=3):
 def line_head(rng, t_written, off, p):
     """the bytes up to and including the timestamp of a message's first line. Notations 0..3 put the stamp at column 0
     (cheap: first patterns of s4's table). Notations 4 and 5 put it *inside* the line, where only s4's wide patterns
-    (searched over the first 1024 / 2056 bytes of a line) find it: 4 = a digit-free prefix of a per-file fixed length, then
+    (searched over the first 1024 / 2056 bytes of a line) find it; 6 and 7 are unbracketed stamps at column 0 (6 zone-less,
+    7 ISO 8601 with zone): 4 = a digit-free prefix of a per-file fixed length, then
     'YYYY-MM-DD HH:MM:SS.f +ZZZZ'; 5 = a JSON-lines record with a "timestamp" member."""
     if p.notation <= 3:
         return stamp(t_written, off, p.notation, p.frac_digits)
     y, mo, d, h, mi, sec, ns = civil(t_written, off)
     frac = ("%09d" % ns)[:p.frac_digits]
+    if p.notation == 6:
+        # the everyday form 'YYYY-MM-DD HH:MM:SS.f message': no bracket and no zone after the fraction, so the stamp ends
+        # in a variable-length component (a reader that sees only part of it still sees a well-formed, different, stamp)
+        return ("%04d-%02d-%02d %02d:%02d:%02d.%s" % (y, mo, d, h, mi, sec, frac)).encode()
+    if p.notation == 7:
+        return ("%04d-%02d-%02dT%02d:%02d:%02d.%s%s" % (y, mo, d, h, mi, sec, frac, fmt_offset(off, 2))).encode()
     if p.notation == 4:
         pre = bytes(rng.choice(LETTERS + b"  ._-") for _ in range(p.prefix_len))
         core = "%04d-%02d-%02d %02d:%02d:%02d.%s %s" % (y, mo, d, h, mi, sec, frac, fmt_offset(off, 1))
@@ -183,7 +190,7 @@ def gen_text_log(rng, p):
             t = p.instants[i]
         elif i > 0:
             t += rng.choice(p.steps)
-        off = rng.choice(offs) if (p.vary_offset and p.notation != 0) else p.off_min
+        off = rng.choice(offs) if (p.vary_offset and p.notation not in (0, 6)) else p.off_min
         # the instant a message carries is the one its text denotes: truncate to the written precision
         t_written = t - (t % (10 ** (9 - p.frac_digits)))
         tag = p.src_letter + tag26(i)
@@ -210,7 +217,9 @@ def gen_text_log(rng, p):
                 # make this line end (offset just past its newline) at k*bsz + delta
                 minimal = pos + len(base) + 1 + len(eol)
                 k = minimal // p.bsz + 1 + (rng.randrange(3) if rng.random() < 0.2 else 0)
-                delta = rng.choice((-1, 0, 1, 0))
+                # ... or 2..36 bytes short of it, so that the boundary falls at some inner byte of the *next* line's stamp
+                # (inside the date, the time, the fraction, the zone)
+                delta = rng.choice((-1, 0, 1, 0, -rng.randint(2, 36), -rng.randint(18, 30)))
                 want_end = k * p.bsz + delta
                 blen = want_end - (pos + len(base) + 1 + len(eol))
                 if blen < 0:
